@@ -13,10 +13,13 @@ import (
 	"fmt"
 	"math/rand"
 	"os"
+	"sort"
 	"strconv"
 	"strings"
 	"testing"
 
+	"github.com/apmckinlay/gsuneido/db19/index"
+	"github.com/apmckinlay/gsuneido/db19/meta"
 	"github.com/apmckinlay/gsuneido/db19/stor"
 	lib "github.com/apmckinlay/gsuneido/util/zzverif"
 )
@@ -26,6 +29,7 @@ type c05row struct {
 	insState int // first state that contains the row
 	delState int // first state that no longer contains it (-1: never deleted)
 	off      uint64
+	deleted  bool // a delete has been committed (merged or not)
 }
 
 func TestVerifC05Search(t *testing.T) {
@@ -41,6 +45,153 @@ func TestVerifC05Search(t *testing.T) {
 	}
 	for h := 0; h < n; h++ {
 		c05history(tr, r, h)
+	}
+}
+
+// c05op is a committed change of one row, merged or still waiting for the merger
+type c05op struct {
+	row      *c05row
+	del      bool
+	merges   *mergeList // nil once merged
+	assigned bool       // a persist has happened since it was merged
+}
+
+type c05drv struct {
+	db        *Database
+	r         *rand.Rand
+	tr        *lib.Trace
+	rows      []*c05row
+	ops       []*c05op
+	pending   []*c05op // committed, not merged, oldest first
+	nkey      int
+	stateOffs []uint64
+	expected  [][]string // keys visible in each persisted state
+	pendAt    []int      // committed-but-unmerged transactions when the state was persisted
+	live      map[string]bool
+}
+
+// commit the transaction the way checkco does; merge at once or leave it to "the merger"
+func (d *c05drv) commit(ut *UpdateTran, op *c05op, mergeNow bool) {
+	tables := d.db.ck.(*Check).commit(ut)
+	ut.commit()
+	merges := &mergeList{}
+	merges.add(tables)
+	op.merges = merges
+	d.ops = append(d.ops, op)
+	d.pending = append(d.pending, op)
+	if mergeNow {
+		d.mergeAll()
+	}
+}
+
+func (d *c05drv) mergeOne() {
+	if len(d.pending) == 0 {
+		return
+	}
+	op := d.pending[0]
+	d.pending = d.pending[1:]
+	d.db.Merge(mergeSingle, op.merges)
+	op.merges = nil
+	if op.del {
+		delete(d.live, op.row.key)
+	} else {
+		d.live[op.row.key] = true
+	}
+}
+
+func (d *c05drv) mergeAll() {
+	for len(d.pending) > 0 {
+		d.mergeOne()
+	}
+}
+
+// change commits one insert or delete; lazy = leave the merge to later
+func (d *c05drv) change(lazy bool) {
+	var candidates []*c05row
+	for _, rw := range d.rows {
+		if !rw.deleted {
+			candidates = append(candidates, rw)
+		}
+	}
+	if len(candidates) > 0 && d.r.Intn(4) == 0 {
+		rw := candidates[d.r.Intn(len(candidates))]
+		ut := d.db.NewUpdateTran()
+		ut.Delete(nil, "mytable", rw.off)
+		rw.deleted = true
+		d.commit(ut, &c05op{row: rw, del: true}, !lazy)
+		return
+	}
+	d.nkey++
+	key := "k" + strconv.Itoa(100000+d.nkey)
+	ut := d.db.NewUpdateTran()
+	ut.Output(nil, "mytable", mkrec(key, "data-"+strings.Repeat("z", d.r.Intn(40))))
+	rw := &c05row{key: key, insState: -1, delState: -1}
+	d.commit(ut, &c05op{row: rw}, !lazy)
+	rec := d.db.NewReadTran().Lookup("mytable", 0, string(mkrec(key).GetRaw(0)))
+	rw.off = rec.Off
+	d.rows = append(d.rows, rw)
+}
+
+type c05exec struct {
+	results []meta.PersistUpdate
+	between func()
+}
+
+func (ep *c05exec) Submit(fn func() meta.PersistUpdate) { ep.results = append(ep.results, fn()) }
+func (ep *c05exec) Results() []meta.PersistUpdate {
+	ep.between()
+	return ep.results
+}
+
+// persist, optionally with commits between its compute and apply phases
+func (d *c05drv) persist(interleave bool) {
+	p := len(d.stateOffs)
+	for _, op := range d.ops {
+		if op.merges == nil && !op.assigned {
+			op.assigned = true
+			if op.del {
+				op.row.delState = p
+			} else {
+				op.row.insState = p
+			}
+		}
+	}
+	var keys []string
+	for k := range d.live {
+		keys = append(keys, k)
+	}
+	sort.Strings(keys)
+	d.pendAt = append(d.pendAt, len(d.pending))
+	if len(d.pending) > 0 {
+		d.tr.Count("persist-with-unmerged-commits")
+	}
+	st := d.db.persist(&c05exec{between: func() {
+		if interleave && d.r.Intn(4) == 0 {
+			d.change(true) // a commit while the persist is being computed
+			d.tr.Count("commit-during-persist")
+		}
+	}}, false)
+	d.stateOffs = append(d.stateOffs, st.Off)
+	d.expected = append(d.expected, keys)
+}
+
+// run produces k persisted states; interleave = the merger lags behind the commits
+func (d *c05drv) run(k int, interleave bool) {
+	d.live = map[string]bool{}
+	for p := 0; p < k; p++ {
+		for i := 1 + d.r.Intn(2); i > 0; i-- {
+			d.change(interleave && d.r.Intn(2) == 0)
+			if interleave && d.r.Intn(3) == 0 {
+				d.mergeOne()
+			}
+		}
+		if !interleave || d.r.Intn(3) == 0 {
+			d.mergeAll()
+		}
+		d.persist(interleave)
+		if interleave && d.r.Intn(2) == 0 {
+			d.mergeOne()
+		}
 	}
 }
 
@@ -60,8 +211,8 @@ func c05history(tr *lib.Trace, r *rand.Rand, h int) {
 		k = 16 + r.Intn(30)
 	}
 	tr.Count("states=" + c05bucket(k))
-	var rows []*c05row
-	var stateOffs []uint64
+	interleave := r.Intn(2) == 0
+	tr.Count(fmt.Sprintf("merger-lags=%v", interleave))
 	if k > 0 {
 		createTbl(db)
 	} else {
@@ -69,37 +220,9 @@ func c05history(tr *lib.Trace, r *rand.Rand, h int) {
 		_, buf := store.Alloc(40)
 		copy(buf, "some record bytes but no state yet")
 	}
-	nkey := 0
-	for p := 0; p < k; p++ {
-		for i := 1 + r.Intn(2); i > 0; i-- {
-			if len(rows) > 0 && r.Intn(4) == 0 {
-				// delete a live row
-				var live []*c05row
-				for _, rw := range rows {
-					if rw.delState < 0 {
-						live = append(live, rw)
-					}
-				}
-				if len(live) > 0 {
-					rw := live[r.Intn(len(live))]
-					ut := db.NewUpdateTran()
-					ut.Delete(nil, "mytable", rw.off)
-					db.CommitMerge(ut)
-					rw.delState = p
-					continue
-				}
-			}
-			nkey++
-			key := "k" + strconv.Itoa(100000+nkey)
-			ut := db.NewUpdateTran()
-			ut.Output(nil, "mytable", mkrec(key, "data-"+strings.Repeat("z", r.Intn(40))))
-			db.CommitMerge(ut)
-			rec := db.NewReadTran().Lookup("mytable", 0, string(mkrec(key).GetRaw(0)))
-			rows = append(rows, &c05row{key: key, insState: p, delState: -1, off: rec.Off})
-		}
-		st := db.persist(&execPersistSingle{}, false)
-		stateOffs = append(stateOffs, st.Off)
-	}
+	d := &c05drv{db: db, r: r, tr: tr}
+	d.run(k, interleave)
+	rows, stateOffs := d.rows, d.stateOffs
 
 	// ---- damage
 	kind := "none"
@@ -115,7 +238,7 @@ func c05history(tr *lib.Trace, r *rand.Rand, h int) {
 			// a row that is never deleted: every state from its insertion on is bad
 			var c []*c05row
 			for _, rw := range rows {
-				if rw.delState < 0 {
+				if rw.delState < 0 && rw.insState >= 0 {
 					c = append(c, rw)
 				}
 			}
@@ -129,7 +252,7 @@ func c05history(tr *lib.Trace, r *rand.Rand, h int) {
 			// a row deleted later: the states in between are bad (good and bad mixed)
 			var c []*c05row
 			for _, rw := range rows {
-				if rw.delState > rw.insState {
+				if rw.insState >= 0 && rw.delState > rw.insState {
 					c = append(c, rw)
 				}
 			}
@@ -147,7 +270,7 @@ func c05history(tr *lib.Trace, r *rand.Rand, h int) {
 			kind = "state-records"
 		default:
 			// the first row: every state is bad
-			if len(rows) > 0 && rows[0].delState < 0 {
+			if len(rows) > 0 && rows[0].delState < 0 && rows[0].insState == 0 {
 				flip(rows[0].off, 3+r.Intn(8))
 				kind = "all"
 			}
@@ -188,6 +311,19 @@ func c05history(tr *lib.Trace, r *rand.Rand, h int) {
 		}
 	}
 	tr.Count(fmt.Sprintf("vector-monotone=%v", mono))
+	// direct oracle: with nothing damaged every completely written state must pass the check
+	// (otherwise a crash right after it makes repair fall back to an older state)
+	if kind == "none" && len(offsets) == k {
+		for i := range good {
+			if !good[i] {
+				p := k - 1 - i
+				tr.Fail("check-rejects-intact-state", fmt.Sprintf("history %d: %d states, nothing damaged: state %d (persisted while %d committed transactions were not yet merged) fails repair.check: %v (good, newest first = %s)",
+					h, k, p, d.pendAt[p], rp.ec, vec))
+				break
+			}
+		}
+		tr.Count("oracle=intact-states-check")
+	}
 	// direct oracle on the check itself: a state passes iff it does not contain the damaged row
 	if damaged != nil && len(offsets) == k {
 		for i := range good {
@@ -266,4 +402,145 @@ func c05bucket(k int) string {
 		return "16-30"
 	}
 	return "31+"
+}
+
+// TestVerifC05CrashMix: the same commit / merge / persist interleavings on a REAL file, then the
+// crash itself: the file is cut right after a persisted state (preferably one that was persisted
+// while committed transactions were still waiting for the merger), OpenDatabase must refuse it,
+// Repair must restore exactly that state (the latest completely persisted one) with exactly the
+// rows that had been merged when it was persisted, and CheckDatabase(full) must pass.
+func TestVerifC05CrashMix(t *testing.T) {
+	tr := lib.Open()
+	defer tr.Close()
+	r := lib.Rand()
+	n := lib.N(6)
+	scratch := os.Getenv("VERIF_SCRATCH")
+	if scratch == "" {
+		scratch = t.TempDir()
+	}
+	// Repair creates its temporary file in the current directory
+	wd, _ := os.Getwd()
+	if err := os.Chdir(scratch); err != nil {
+		t.Fatal(err)
+	}
+	defer os.Chdir(wd)
+	stdout := os.Stdout
+	if devnull, err := os.OpenFile(os.DevNull, os.O_WRONLY, 0); err == nil {
+		os.Stdout = devnull
+		defer func() { os.Stdout = stdout }()
+	}
+	for h := 0; h < n; h++ {
+		c05crashmix(tr, r, h)
+	}
+}
+
+func c05keys(db *Database) []string {
+	rt := db.NewReadTran()
+	if rt.GetInfo("mytable") == nil {
+		return nil
+	}
+	it := index.NewOverIter("mytable", 0)
+	var keys []string
+	for it.Next(rt); !it.Eof(); it.Next(rt) {
+		keys = append(keys, rt.GetRecord(it.CurOff()).GetStr(0))
+	}
+	return keys
+}
+
+func c05crashmix(tr *lib.Trace, r *rand.Rand, h int) {
+	const file, crash = "mix.db", "mixcrash.db"
+	for _, f := range []string{file, crash, crash + ".bak"} {
+		os.Remove(f)
+	}
+	db, err := CreateDatabase(file)
+	if err != nil {
+		panic(err)
+	}
+	db.CheckerSync()
+	createTbl(db)
+	d := &c05drv{db: db, r: r, tr: tr}
+	k := 2 + r.Intn(8)
+	d.run(k, true)
+	d.mergeAll()
+	db.persist(&execPersistSingle{}, false)
+	db.Close()
+	full, err := os.ReadFile(file)
+	if err != nil {
+		panic(err)
+	}
+	var ends []string
+	for _, off := range d.stateOffs {
+		ends = append(ends, strconv.Itoa(int(off)+stateLen))
+	}
+	// cut after states persisted with unmerged commits pending first, then any other
+	var order []int
+	for p := range d.stateOffs {
+		if d.pendAt[p] > 0 {
+			order = append(order, p)
+		}
+	}
+	r.Shuffle(len(order), func(i, j int) { order[i], order[j] = order[j], order[i] })
+	order = append(order, r.Intn(k))
+	if len(order) > 3 {
+		order = order[:3]
+	}
+	for _, p := range order {
+		cut := int(d.stateOffs[p]) + stateLen
+		desc := fmt.Sprintf("history %d: %d persisted states (ends %s), file cut at %d = end of state %d, which was persisted while %d committed transactions were not yet merged",
+			h, k, strings.Join(ends, ","), cut, p, d.pendAt[p])
+		tr.Count(fmt.Sprintf("cut-after-state-with-unmerged=%v", d.pendAt[p] > 0))
+		os.Remove(crash)
+		os.Remove(crash + ".bak")
+		os.WriteFile(crash, full[:cut], 0644)
+		out := "!error"
+		func() {
+			cdb, err := OpenDatabase(crash)
+			if err == nil {
+				cdb.Close()
+				tr.Fail("open-accepted-damaged", desc)
+				return
+			}
+			var rerr error
+			if msg := lib.Catch(func() { _, rerr = Repair(crash, err) }); msg != "" {
+				tr.Fail("repair-panic", desc+" : "+msg)
+				out = "!panic"
+				return
+			}
+			if rerr != nil {
+				tr.Fail("repair-no-state-found", desc+" : Repair: "+rerr.Error())
+				out = "none"
+				return
+			}
+			cdb, err = OpenDatabase(crash)
+			if err != nil {
+				tr.Fail("reopen-failed", desc+" : "+err.Error())
+				return
+			}
+			got := cdb.GetState().Off
+			keys := c05keys(cdb)
+			cdb.Close()
+			idx := -1
+			for i, off := range d.stateOffs {
+				if off == got {
+					idx = i
+				}
+			}
+			out = strconv.Itoa(idx)
+			if got != d.stateOffs[p] {
+				tr.Fail("restored-wrong-state", desc+fmt.Sprintf(" : repair restored state %d (offset %d), not the latest completely persisted state %d (offset %d)",
+					idx, got, p, d.stateOffs[p]))
+				return
+			}
+			if fmt.Sprint(keys) != fmt.Sprint(d.expected[p]) {
+				tr.Fail("restored-wrong-rows", desc+fmt.Sprintf(" : rows %v, expected %v", keys, d.expected[p]))
+			}
+			if ce := CheckDatabase(crash, true); ce != nil {
+				tr.Fail("check-after-repair", desc+" : "+ce.Error())
+			}
+		}()
+		tr.Qf(out, "crash %d %s", cut, strings.Join(ends, ","))
+	}
+	for _, f := range []string{file, crash, crash + ".bak"} {
+		os.Remove(f)
+	}
 }
